@@ -129,12 +129,12 @@ def _bnd_component(R, pid, tier, seed):
             continue
         sc = c.get("scenario")
         relevant = {
-            "C07": sc in ("repro", "repro0"), "C08": sc in ("reuse", "reuse2", "reuse3", "reuse_dim"), "C18": sc in ("setcfg", "setcfg2"),
+            "C07": sc in ("repro", "repro0", "repro_bad"), "C08": sc in ("reuse", "reuse2", "reuse3", "reuse_dim", "reuse_int"), "C18": sc in ("setcfg", "setcfg2"),
             "C01": sc in ("single", "reuse3", "reuse_dim"), "C02": sc in ("single", "reuse3", "reuse_dim"),
             "C03": sc in ("single", "reuse3", "reuse_dim"),
             "C12": sc in ("duality", "duality_reuse", "duality_nan") or (sc == "single" and c.get("debug")),
             "C09": sc in ("single", "rejected", "noseed"), "C06": sc in ("single", "rejected", "reuse_dim", "reuse2", "reuse3", "reuse", "setcfg", "setcfg2"),
-            "C10": sc in ("single", "setcfg2"),
+            "C10": sc in ("single", "setcfg2"), "C04": sc in ("single", "setcfg2"),
             "C11": c.get("mode") in ("thread", "process"),
             "C05": c.get("kind") != "nanobj" and sc in ("single", "reuse", "reuse2", "reuse3", "reuse_dim", "setcfg", "setcfg2", "repro", "repro0", "duality", "duality_reuse"),
         }.get(pid, sc == "single")
